@@ -676,4 +676,95 @@ Section Inv.
       as (ga & gb & (HEPa & HEPb & HDab & HDba & _)).
     split; [eapply e2e_dir; eassumption | eapply e2e_dir; eassumption].
   Qed.
+
+  (* ------------------------------------------------------------------------------------ *)
+  (* the age hypothesis is implied by "fewer than 2^31 - 1 octets written per direction"   *)
+  (* ------------------------------------------------------------------------------------ *)
+  Definition small (st : net) : Prop :=
+    l_len (ep_written (n_a st)) < 2147483647 /\ l_len (ep_written (n_b st)) < 2147483647.
+
+  (* RCV.NXT and SND.UNA as offsets are within what was written *)
+  Lemma offsets_bounded S F S' F' ex gx ey gy :
+    EP S F ey gy -> DIR S F ex gx ey gy -> EP S' F' ex gx ->
+    0 <= rcv_off ey <= l_len (ep_written ex) + 1 /\ 0 <= una_off ex <= l_len (ep_written ex).
+  Proof.
+    intros (_ & _ & Hg & _ & (R1 & R2 & _) & _ & (HR0 & _ & Hk)) (_ & _ & _ & _ & _ & HRL & _ & (Hrd & _))
+           ((Htx & _) & _ & _ & Htxl & _).
+    split.
+    - unfold rcv_off. unfold ginv in Hg. destruct (g_irs (eg_rx gy)) as [irs|] eqn:Ei.
+      + destruct Hk as (_ & HR). destruct Hg as (((Hwf & _ & _ & _ & Hc0 & _) & _) & (Hl & _)).
+        destruct Hwf as (Hl0 & _). rewrite <- R1 by congruence. rewrite Hl.
+        unfold rcv_nxt_off, rcv_count in HR. pose proof (b2z_range (s_rx_fin_received (ep_sock ey))). lia.
+      + destruct Hg as ((Hwf & _ & Hlen & _ & Hfin & _) & _). rewrite Hlen, Hfin. cbn [b2z].
+        pose proof (TcpRecvBase.l_len_nonneg (ep_read ey)). lia.
+    - unfold una_off. destruct Htx as (Hwf & _ & Ha0 & Hlen & _). destruct Hwf as (Hl0 & _).
+      destruct Htxl as [(T1 & _) | (_ & (B1 & _))].
+      + rewrite <- T1. lia.
+      + rewrite B1 in Hlen. change (l_len []) with 0 in Hlen.
+        pose proof (TcpRecvBase.l_len_nonneg (ep_written ex)). lia.
+  Qed.
+
+  Lemma seg_age_small S F S' F' ex gx ey gy r :
+    EP S F ey gy -> DIR S F ex gx ey gy -> EP S' F' ex gx ->
+    EP S' F' ex gx -> DIR S' F' ey gy ex gx -> EP S F ey gy ->
+    l_len (ep_written ex) < 2147483647 -> l_len (ep_written ey) < 2147483647 ->
+    seg_age ey ex r.
+  Proof.
+    intros H1 H2 H3 H4 H5 H6 Lx Ly.
+    destruct (offsets_bounded _ _ _ _ _ _ _ _ H1 H2 H3) as (Hr & _).
+    destruct (offsets_bounded _ _ _ _ _ _ _ _ H4 H5 H6) as (_ & Hu).
+    split.
+    - intros k Hk _. lia.
+    - intros a c _ Hc _. lia.
+  Qed.
+
+  Lemma run_age_snoc_intro st evs ev :
+    run_age st evs -> (forall st1, net_run st evs = Ok st1 -> ev_age st1 ev) -> run_age st (evs ++ [ev]).
+  Proof.
+    revert st. induction evs as [|e evs IH]; intros st Ha Hev; cbn [app run_age net_run] in *.
+    - split; [apply Hev; reflexivity|]. destruct (net_step st ev); exact I.
+    - destruct Ha as (Ha1 & Ha2). split; [exact Ha1|].
+      destruct (net_step st e) as [st2| |] eqn:E; try exact I.
+      apply IH; [exact Ha2|]. intros st1 Hr. apply Hev. cbn [obind]. exact Hr.
+  Qed.
+
+  Lemma small_mono st st' : net_mono st st' -> small st' -> small st.
+  Proof.
+    intros Hm (S1 & S2). destruct (Hm SA) as (Wa & _). destruct (Hm SB) as (Wb & _). cbn [net_get] in *.
+    apply l_len_prefix in Wa. apply l_len_prefix in Wb. split; lia.
+  Qed.
+
+  Theorem run_age_small ca cb st0 evs st :
+    cfg_ok ca -> cfg_ok cb -> net_init ca cb = Ok st0 ->
+    net_run st0 evs = Ok st -> small st -> run_age st0 evs.
+  Proof.
+    intros Hca Hcb Hinit. revert st.
+    induction evs as [|ev evs IH] using rev_ind; intros st Hrun Hsmall; [exact I|].
+    apply net_run_snoc in Hrun. destruct Hrun as (st1 & Hr1 & Hs).
+    pose proof (small_mono _ _ (net_step_mono _ _ _ Hs) Hsmall) as Hsmall1.
+    pose proof (IH st1 Hr1 Hsmall1) as Hage1.
+    apply run_age_snoc_intro; [exact Hage1|].
+    intros st1' Hr1'. rewrite Hr1 in Hr1'. inversion Hr1'; subst st1'.
+    destruct ev; try exact I. cbn [ev_age].
+    destruct (nth_error _ i) as [p|]; [|exact I].
+    destruct (INV_reach ca cb st0 evs st1 Hca Hcb Hinit Hr1 Hage1 _ _ _ _
+                (compat_oracle (n_a st1)) (compat_oracle (n_b st1)))
+      as (ga & gb & (HEPa & HEPb & HDab & HDba & _)).
+    destruct Hsmall1 as (La & Lb).
+    destruct to; cbn [net_get side_other].
+    - eapply (seg_age_small _ _ _ _ (n_b st1) gb (n_a st1) ga); eassumption.
+    - eapply (seg_age_small _ _ _ _ (n_a st1) ga (n_b st1) gb); eassumption.
+  Qed.
+
+  Theorem e2e_small ca cb st0 evs st :
+    cfg_ok ca -> cfg_ok cb -> net_init ca cb = Ok st0 ->
+    net_run st0 evs = Ok st -> small st ->
+    (prefix (ep_read (n_b st)) (ep_written (n_a st)) /\
+     (ep_finished (n_b st) = true -> ep_read (n_b st) = ep_written (n_a st))) /\
+    (prefix (ep_read (n_a st)) (ep_written (n_b st)) /\
+     (ep_finished (n_a st) = true -> ep_read (n_a st) = ep_written (n_b st))).
+  Proof.
+    intros Hca Hcb Hinit Hrun Hsmall.
+    apply (e2e_reach ca cb st0 evs st Hca Hcb Hinit Hrun (run_age_small ca cb st0 evs st Hca Hcb Hinit Hrun Hsmall)).
+  Qed.
 End Inv.
